@@ -174,3 +174,125 @@ Print Assumptions C08_append_partition_numbers.
 Print Assumptions C08_append_rotates_iff_numbers.
 Print Assumptions C08_runs_partition_numbers.
 Print Assumptions C08_runs_partition_numbersdirect.
+
+(* ------------------------------------------------------------------ start states for TimestampsDirect naming (proofs: Flw/TsdAppendPartition.v).
+   The histories are those of TsRestart.v / TsdRestart.v: before each run the clock advances by dt >= 0 (run_t, runs_ops_t);
+   with append the newest file found - by time stamp and restart counter - is continued under its old name and its content
+   counts for the limit from the first write on *)
+Require Import FL.Flw.TsRestart FL.Flw.TsdRestartInv FL.Flw.TsdRestart FL.Flw.TsdAppendPartition.
+Theorem C08_append_partition_timestampsdirect c1 c2 m1 m2 t0 off dt ops1 ops2 closed1 cur1 :
+  tsdcfg c1 (CSize m1) -> tsdcfg c2 (CSize m2) -> tag_ok c1 -> tag_ok c2 -> c_spec c1 = c_spec c2 -> c_utc c1 = c_utc c2 ->
+  (c_append c1 = true -> probe_ok c1) -> c_append c2 = true -> probe_ok c2 -> (0 <= dt)%Z ->
+  Forall basic_op ops1 -> Forall tick_ok ops1 -> Forall basic_op ops2 -> Forall tick_ok ops2 ->
+  expected_files m1 None (items false ops1) = closed1 ++ [cur1] ->
+  let rs := [(0%Z, c1, ops1); (dt, c2, ops2)] in
+  let e := ts_e c2 off in
+  (0 <= t0 + e)%Z -> (t0 + elapsed (runs_ops_t rs) + e < sec_max)%Z -> (N.of_nat (length (runs_ops_t rs)) <= usize_max)%N ->
+  exists keys,
+    tsd_view c2 e (wfs (s_w (fst (run (sys0 t0 off) (runs_ops_t rs))))) keys
+             (closed1 ++ expected_files m2 (Some cur1) (items false ops2))
+    /\ keys_ok keys /\ (forall k, In k keys -> (t0 <= fst k <= t0 + elapsed (runs_ops_t rs))%Z).
+Proof. exact (timestampsdirect_append_partition c1 c2 m1 m2 t0 off dt ops1 ops2 closed1 cur1). Qed.
+
+Theorem C08_append_rotates_iff_timestampsdirect c1 c2 m1 m2 t0 off dt ops1 ops2 closed1 cur1 i o b :
+  tsdcfg c1 (CSize m1) -> tsdcfg c2 (CSize m2) -> tag_ok c1 -> tag_ok c2 -> c_spec c1 = c_spec c2 -> c_utc c1 = c_utc c2 ->
+  (c_append c1 = true -> probe_ok c1) -> c_append c2 = true -> probe_ok c2 -> (0 <= dt)%Z ->
+  Forall basic_op ops1 -> Forall tick_ok ops1 -> Forall basic_op ops2 -> Forall tick_ok ops2 ->
+  expected_files m1 None (items false ops1) = closed1 ++ [cur1] ->
+  let rs := [(0%Z, c1, ops1); (dt, c2, ops2)] in
+  let e := ts_e c2 off in
+  (0 <= t0 + e)%Z -> (t0 + elapsed (runs_ops_t rs) + e < sec_max)%Z -> (N.of_nat (length (runs_ops_t rs)) <= usize_max)%N ->
+  nth_error ops2 i = Some o -> (o = OWrite b \/ o = OPlain b) ->
+  nth_error (snd (run (fst (run (sys0 t0 off) (runs_ops_t [(0%Z, c1, ops1)]))) (OTick dt :: OStart c2 :: ops2))) (S (S i))
+  = Some (ObsRes 0 (m2 <? N.of_nat (length (cur_of (s_run m2 (Some ([], cur1)) (from_first_write (firstn i ops2))))))%N).
+Proof. exact (timestampsdirect_append_rotates_iff c1 c2 m1 m2 t0 off dt ops1 ops2 closed1 cur1 i o b). Qed.
+
+Theorem C08_runs_partition_timestampsdirect sp utc t0 off rs :
+  Forall (run_ok_tsd sp utc) rs -> Forall size_run_tsd rs ->
+  let e := if utc then 0%Z else off in
+  (0 <= t0 + e)%Z -> (t0 + elapsed (runs_ops_t rs) + e < sec_max)%Z -> (N.of_nat (length (runs_ops_t rs)) <= usize_max)%N ->
+  let f := wfs (s_w (fst (run (sys0 t0 off) (runs_ops_t rs)))) in
+  exists keys,
+    (forall c, c_spec c = sp -> tsd_view c e f keys (runs_files [] (strip rs)))
+    /\ keys_ok keys
+    /\ (forall k, In k keys -> (t0 <= fst k <= t0 + elapsed (runs_ops_t rs))%Z).
+Proof. exact (timestampsdirect_runs_partition sp utc t0 off rs). Qed.
+
+Theorem C08_runs_rotates_iff_timestampsdirect sp utc t0 off rs dt c m ops i o b :
+  Forall (run_ok_tsd sp utc) (rs ++ [(dt, c, ops)]) -> Forall size_run_tsd rs -> tsdcfg c (CSize m) ->
+  let e := if utc then 0%Z else off in
+  (0 <= t0 + e)%Z -> (t0 + elapsed (runs_ops_t (rs ++ [(dt, c, ops)])) + e < sec_max)%Z ->
+  (N.of_nat (length (runs_ops_t (rs ++ [(dt, c, ops)]))) <= usize_max)%N ->
+  nth_error ops i = Some o -> (o = OWrite b \/ o = OPlain b) ->
+  nth_error (snd (run (fst (run (sys0 t0 off) (runs_ops_t rs))) (OTick dt :: OStart c :: ops))) (S (S i))
+  = Some (ObsRes 0 (m <? N.of_nat (length (cur_before m (start_of (runs_files [] (strip rs)) (c_append c)) (firstn i ops))))%N).
+Proof. exact (timestampsdirect_runs_rotates_iff sp utc t0 off rs dt c m ops i o b). Qed.
+
+Check C08_append_partition_timestampsdirect. Check C08_append_rotates_iff_timestampsdirect.
+Check C08_runs_partition_timestampsdirect. Check C08_runs_rotates_iff_timestampsdirect.
+Print Assumptions C08_append_partition_timestampsdirect.
+Print Assumptions C08_append_rotates_iff_timestampsdirect.
+Print Assumptions C08_runs_partition_timestampsdirect.
+Print Assumptions C08_runs_rotates_iff_timestampsdirect.
+
+(* ------------------------------------------------------------------ start states for Timestamps naming (proofs: Flw/TsAppendPartition.v):
+   with append rCURRENT is continued and its content counts; without append it is closed at the first write of the new run
+   under the stamp of its start; a run that never writes changes nothing *)
+Require Import FL.Flw.TsAppendPartition.
+Theorem C08_append_partition_timestamps sp utc t0 off dt1 c1 m1 ops1 dt2 c2 m2 ops2 closed1 cur1 :
+  run_ok_ts sp utc (dt1, c1, ops1) -> run_ok_ts sp utc (dt2, c2, ops2) ->
+  tscfg c1 (CSize m1) -> tscfg c2 (CSize m2) -> c_append c2 = true ->
+  expected_files m1 None (items false ops1) = closed1 ++ [cur1] ->
+  let rs := TsAppendPartition.two_runs dt1 c1 ops1 dt2 c2 ops2 in
+  let e := if utc then 0%Z else off in
+  (0 <= t0 + e)%Z -> (t0 + elapsed (runs_ops_t rs) + e < sec_max)%Z -> (N.of_nat (length (runs_ops_t rs)) <= usize_max)%N ->
+  let f := wfs (s_w (fst (run (sys0 t0 off) (runs_ops_t rs)))) in
+  exists keys closed cur,
+    closed1 ++ expected_files m2 (Some cur1) (items false ops2) = closed ++ [cur]
+    /\ (forall c, c_spec c = sp -> ts_view c e f keys closed cur)
+    /\ keys_ok keys
+    /\ (forall k, In k keys -> (t0 <= fst k <= t0 + elapsed (runs_ops_t rs))%Z).
+Proof. exact (timestamps_append_partition sp utc t0 off dt1 c1 m1 ops1 dt2 c2 m2 ops2 closed1 cur1). Qed.
+
+Theorem C08_append_rotates_iff_timestamps sp utc t0 off dt1 c1 m1 ops1 dt2 c2 m2 ops2 closed1 cur1 i o b :
+  run_ok_ts sp utc (dt1, c1, ops1) -> run_ok_ts sp utc (dt2, c2, ops2) ->
+  tscfg c1 (CSize m1) -> tscfg c2 (CSize m2) -> c_append c2 = true ->
+  expected_files m1 None (items false ops1) = closed1 ++ [cur1] ->
+  let e := if utc then 0%Z else off in
+  (0 <= t0 + e)%Z -> (t0 + elapsed (run_t dt1 c1 ops1) + dt2 + elapsed ops2 + e < sec_max)%Z ->
+  (N.of_nat (length (run_t dt1 c1 ops1) + S (length ops2)) <= usize_max)%N ->
+  nth_error ops2 i = Some o -> (o = OWrite b \/ o = OPlain b) ->
+  nth_error (snd (run (fst (run (sys0 t0 off) (run_t dt1 c1 ops1))) (OTick dt2 :: OStart c2 :: ops2))) (S (S i))
+  = Some (ObsRes 0 (m2 <? N.of_nat (length (cur_of (s_run m2 (Some ([], cur1)) (from_first_write (firstn i ops2))))))%N).
+Proof. exact (timestamps_append_rotates_iff sp utc t0 off dt1 c1 m1 ops1 dt2 c2 m2 ops2 closed1 cur1 i o b). Qed.
+
+Theorem C08_runs_partition_timestamps sp utc t0 off rs :
+  Forall (run_ok_ts sp utc) rs -> Forall (fun r => exists m, tscfg (snd (fst r)) (CSize m)) rs ->
+  let e := if utc then 0%Z else off in
+  (0 <= t0 + e)%Z -> (t0 + elapsed (runs_ops_t rs) + e < sec_max)%Z -> (N.of_nat (length (runs_ops_t rs)) <= usize_max)%N ->
+  let f := wfs (s_w (fst (run (sys0 t0 off) (runs_ops_t rs)))) in
+  (runs_files [] (TsAppendPartition.strip rs) = [] /\ names f = [])
+  \/ exists keys closed cur,
+       runs_files [] (TsAppendPartition.strip rs) = closed ++ [cur]
+       /\ (forall c, c_spec c = sp -> ts_view c e f keys closed cur)
+       /\ keys_ok keys
+       /\ (forall k, In k keys -> (t0 <= fst k <= t0 + elapsed (runs_ops_t rs))%Z).
+Proof. exact (timestamps_runs_partition sp utc t0 off rs). Qed.
+
+Theorem C08_runs_rotates_iff_timestamps sp utc t0 off rs dt c m ops i o b :
+  Forall (run_ok_ts sp utc) rs -> Forall (fun r => exists m, tscfg (snd (fst r)) (CSize m)) rs ->
+  run_ok_ts sp utc (dt, c, ops) -> tscfg c (CSize m) ->
+  let e := if utc then 0%Z else off in
+  (0 <= t0 + e)%Z -> (t0 + elapsed (runs_ops_t rs) + dt + elapsed ops + e < sec_max)%Z ->
+  (N.of_nat (length (runs_ops_t rs) + S (length ops)) <= usize_max)%N ->
+  nth_error ops i = Some o -> (o = OWrite b \/ o = OPlain b) ->
+  nth_error (snd (run (fst (run (sys0 t0 off) (runs_ops_t rs))) (OTick dt :: OStart c :: ops))) (S (S i))
+  = Some (ObsRes 0 (m <? N.of_nat (length (cur_before m (start_of (runs_files [] (TsAppendPartition.strip rs)) (c_append c)) (firstn i ops))))%N).
+Proof. exact (timestamps_runs_rotates_iff sp utc t0 off rs dt c m ops i o b). Qed.
+
+Check C08_append_partition_timestamps. Check C08_append_rotates_iff_timestamps.
+Check C08_runs_partition_timestamps. Check C08_runs_rotates_iff_timestamps.
+Print Assumptions C08_append_partition_timestamps.
+Print Assumptions C08_append_rotates_iff_timestamps.
+Print Assumptions C08_runs_partition_timestamps.
+Print Assumptions C08_runs_rotates_iff_timestamps.
